@@ -66,16 +66,22 @@ type machine struct {
 	gotRes  bool       // res(...) was called
 	ok      bool       // first value given to res
 	results []rt.Value // the rest
+	follow  []followUp // values obtained from the results afterwards
 
 	cbFn    rt.Value
 	body    rt.Value
 	callctx rt.Value // runtime.callcontext
 }
 
+type followUp struct {
+	from int // result index (0 = default input)
+	vals []rt.Value
+}
+
 const bodySrc = `
-local rec, res, pcall, cowrap, load, rcontext, tostring, next, getmetatable, rawequal = ...
+local rec, res, res2, pcall, cowrap, load, rcontext, tostring, next, getmetatable, rawequal, pack, unpack, type, fread, ioread, filemt = ...
 local function id(...) return ... end
-local function body(sp, f, tgt, w1, ...)
+local function body(sp, probe, f, tgt, w1, ...)
   local mt0
   if w1 then mt0 = getmetatable(w1) end
   local call
@@ -89,9 +95,21 @@ local function body(sp, f, tgt, w1, ...)
   elseif sp == 8 then call = load("return f(...)", "=c08", "t", {f = f})
   end
   rec("B", tostring(rcontext()))
-  if sp == 2 then res(pcall(f, ...)) else res(pcall(call, ...)) end
+  local r
+  if sp == 2 then r = pack(pcall(f, ...)) else r = pack(pcall(call, ...)) end
+  res(unpack(r, 1, r.n))
   rec("A", tostring(rcontext()))
   if w1 then rec("W", tostring(next(w1) == nil and rawequal(getmetatable(w1), mt0))) end
+  if probe and r[1] then
+    -- what the program can get out of the values it was given back, and out
+    -- of the default input the call may have redirected
+    for i = 2, r.n do
+      local v = r[i]
+      if type(v) == "function" then res2(i - 1, pcall(v))
+      elseif type(v) == "userdata" and rawequal(getmetatable(v), filemt) then res2(i - 1, pcall(fread, v, "a")) end
+    end
+    res2(0, pcall(ioread, "a"))
+  end
 end
 local function cb(...) rec("cb") end
 return body, cb
@@ -175,7 +193,7 @@ func (mc *machine) loadChunk(name, src string) *rt.Closure {
 
 // harnessHelpers are the library functions the body uses inside the context;
 // they must be callable under every flag subset.
-var harnessHelpers = []string{"pcall", "coroutine.wrap", "load", "runtime.context", "tostring", "next", "getmetatable", "rawequal", "runtime.callcontext"}
+var harnessHelpers = []string{"pcall", "coroutine.wrap", "load", "runtime.context", "tostring", "next", "getmetatable", "rawequal", "runtime.callcontext", "table.pack", "table.unpack", "type"}
 
 // prepare loads the body into the machine.
 func (mc *machine) prepare(required rt.ComplianceFlags) {
@@ -204,12 +222,23 @@ func (mc *machine) prepare(required rt.ComplianceFlags) {
 		}
 		return c.Next(), nil
 	}, "c08res", 0, true)
-	rt.SolemnlyDeclareCompliance(allFlags, rec, res)
+	res2 := rt.NewGoFunction(func(t *rt.Thread, c *rt.GoCont) (rt.Cont, error) {
+		etc := c.Etc()
+		if len(etc) > 0 {
+			n, _ := etc[0].TryInt()
+			mc.follow = append(mc.follow, followUp{from: int(n), vals: append([]rt.Value(nil), etc[1:]...)})
+		}
+		return c.Next(), nil
+	}, "c08res2", 0, true)
+	rt.SolemnlyDeclareCompliance(allFlags, rec, res, res2)
+	filemt := rt.TableValue(mc.r.RawMetatable(mc.global("io.stdout")))
+	fread := filemt.AsTable().Get(rt.StringValue("__index")).AsTable().Get(rt.StringValue("read"))
 
 	clos := mc.loadChunk("c08body", bodySrc)
 	out, err := mc.hostCallN(rt.FunctionValue(clos),
-		rt.FunctionValue(rec), rt.FunctionValue(res), mc.global("pcall"), mc.global("coroutine.wrap"), mc.global("load"),
-		mc.global("runtime.context"), mc.global("tostring"), mc.global("next"), mc.global("getmetatable"), mc.global("rawequal"))
+		rt.FunctionValue(rec), rt.FunctionValue(res), rt.FunctionValue(res2), mc.global("pcall"), mc.global("coroutine.wrap"), mc.global("load"),
+		mc.global("runtime.context"), mc.global("tostring"), mc.global("next"), mc.global("getmetatable"), mc.global("rawequal"),
+		mc.global("table.pack"), mc.global("table.unpack"), mc.global("type"), fread, mc.global("io.read"), filemt)
 	must(err)
 	mc.body, mc.cbFn = out[0], out[1]
 
